@@ -2905,6 +2905,18 @@ def normalize_expression(expr):
     return expr._name
 
 
+def _selects_partitions_by_position(expr):
+    """Whether a node that survived simplification addresses the partitions of
+    its input by position (``Partitions``, ``head(n, npartitions=k)``), i.e.
+    above an operation that the selection could not be pushed through. Tuning
+    must then not change the partition layout of the inputs"""
+    return any(
+        isinstance(e, Partitions)
+        or (type(e) is Head and e.operand("npartitions") not in (1, -1))
+        for e in expr.walk()
+    )
+
+
 def optimize_until(expr: Expr, stage: core.OptimizerStage) -> Expr:
     result = expr
     if stage == "logical":
@@ -2916,7 +2928,8 @@ def optimize_until(expr: Expr, stage: core.OptimizerStage) -> Expr:
         return expr
 
     # Manipulate Expression to make it more efficient
-    expr = expr.rewrite(kind="tune")
+    if not _selects_partitions_by_position(expr):
+        expr = expr.rewrite(kind="tune")
     if stage == "tuned-logical":
         return expr
 
